@@ -199,12 +199,87 @@ func propC10(run *Run, n int) {
 		for k := 0; k < 3; k++ {
 			g2, kind := varyOps(r, groups)
 			t := perturb(r, cfg, a, b)
-			if r.Chance(1, 2) {
+			switch r.Intn(6) {
+			case 0, 1, 2:
 				t = a.Clone()
+			case 3, 4:
+				// a target that differs from a exactly on the way to a location the patch addresses
+				// (missing ancestor, emptied parent, ancestor of another type)
+				if all := flatOps(g2); len(all) > 0 {
+					t = perturbAlongPointer(r, a, all[r.Intn(len(all))].Path)
+					kind += "+ancestor"
+				}
 			}
 			addC10Case(run, kind, opsText(g2), t, a, b)
 		}
 	}
+}
+
+func flatOps(groups [][]jop) []jop {
+	all := []jop{}
+	for _, g := range groups {
+		all = append(all, g...)
+	}
+	return all
+}
+
+// perturbAlongPointer returns a copy of t changed at a proper ancestor of the location the JSON
+// Pointer addresses: the member on the way is deleted, emptied, or replaced by a value of another type.
+func perturbAlongPointer(r *Rng, t *Val, ptr string) *Val {
+	t = t.Clone()
+	if ptr == "" || ptr[0] != '/' {
+		return t
+	}
+	toks := strings.Split(ptr[1:], "/")
+	for i := range toks {
+		toks[i] = strings.ReplaceAll(strings.ReplaceAll(toks[i], "~1", "/"), "~0", "~")
+	}
+	if len(toks) < 2 {
+		return t
+	}
+	cut := r.Intn(len(toks) - 1) // the member toks[cut] of the node at toks[:cut] is changed
+	cur := t
+	for i := 0; i < cut; i++ {
+		switch cur.K {
+		case KObj:
+			n, ok := cur.O[toks[i]]
+			if !ok {
+				return t
+			}
+			cur = n
+		case KArr:
+			j, err := strconv.Atoi(toks[i])
+			if err != nil || j < 0 || j >= len(cur.A) {
+				return t
+			}
+			cur = cur.A[j]
+		default:
+			return t
+		}
+	}
+	repl := []*Val{VObj(), VArr(), VNull(), VStr("x"), VNum(0)}[r.Intn(5)]
+	switch cur.K {
+	case KObj:
+		if _, ok := cur.O[toks[cut]]; !ok {
+			return t
+		}
+		if r.Chance(1, 2) {
+			delete(cur.O, toks[cut])
+		} else {
+			cur.O[toks[cut]] = repl
+		}
+	case KArr:
+		j, err := strconv.Atoi(toks[cut])
+		if err != nil || j < 0 || j >= len(cur.A) {
+			return t
+		}
+		if r.Chance(1, 2) {
+			cur.A = cur.A[:j]
+		} else {
+			cur.A[j] = repl
+		}
+	}
+	return t
 }
 
 func opsText(groups [][]jop) string {
